@@ -119,6 +119,10 @@ pub fn finish(args: &Args, started: Instant, mut report: Report) -> i32 {
     let mut new_violations = 0;
     let mut known = 0;
     let replay_dir = PathBuf::from(VERIF_ROOT).join("replays").join(id);
+    if args.replay.is_none() {
+        // counterexamples of earlier runs are stale once the check has run again
+        let _ = std::fs::remove_dir_all(&replay_dir);
+    }
     let mut lines = vec![];
     for (sig, v) in &by_sig {
         if let Some(f) = findings.iter().find(|f| &f.property == id && &f.signature == sig) {
